@@ -260,12 +260,11 @@ theorem parsePositional_keys {acc : Dict} {ps : List Param} {ts : List Str} {d :
 
 /-! ## the keyword loop -/
 
-def kwKey (t : Str) : Str := (splitEq2 t).headD []
-def kwVal (t : Str) : Str := (splitEq2 t).getD 1 []
+def kwKey (t : Str) : Str := (splitEq t).headD []
+def kwVal (t : Str) : Str := (splitEq t).getD 1 []
 
 theorem parseKeywords_err {kws : List Param} {acc : Dict} {ts : List Str} {e : PyExc}
-    (h : parseKeywords kws acc ts = .err e) :
-    e = .descriptor ∨ (e = .valueError ∧ ∃ t ∈ ts, (splitEq2 t).length = 3) := by
+    (h : parseKeywords kws acc ts = .err e) : e = .descriptor := by
   induction ts generalizing acc with
   | nil => simp [parseKeywords] at h
   | cons t ts ih =>
@@ -275,25 +274,10 @@ theorem parseKeywords_err {kws : List Param} {acc : Dict} {ts : List Str} {e : P
       · split at h
         · rename_i e' he
           cases h
-          exact Or.inl (catch_convKw_err he)
-        · rcases ih h with h1 | ⟨h1, t', ht', hl⟩
-          · exact Or.inl h1
-          · exact Or.inr ⟨h1, t', List.mem_cons_of_mem _ ht', hl⟩
-      · cases h; exact Or.inl rfl
-    · cases h; exact Or.inl rfl
-    · rename_i h2 h1
-      cases h
-      refine Or.inr ⟨rfl, t, List.mem_cons_self, ?_⟩
-      -- splitEq2 has 1, 2 or 3 pieces
-      unfold splitEq2 at h1 h2 ⊢
-      cases hb : breakEq t with
-      | none => simp [hb] at h1
-      | some ab =>
-        obtain ⟨a, r⟩ := ab
-        simp only [hb] at h1 h2 ⊢
-        cases hb2 : breakEq r with
-        | none => simp [hb2] at h2
-        | some bc => simp
+          exact catch_convKw_err he
+        · exact ih h
+      · cases h; rfl
+    · cases h; rfl
 
 theorem parseKeywords_get {kws : List Param} {acc : Dict} {ts : List Str} {d : Dict}
     (h : parseKeywords kws acc ts = .ok d) (q : Str) :
@@ -330,7 +314,6 @@ theorem parseKeywords_get {kws : List Param} {acc : Dict} {ts : List Str} {d : D
               rw [ih', dget_dset]; simp [hq]
       · cases h
     · cases h
-    · cases h
 
 theorem parseKeywords_keys {kws : List Param} {acc : Dict} {ts : List Str} {d : Dict}
     (h : parseKeywords kws acc ts = .ok d) (hk : (keysOf acc).Nodup) : (keysOf d).Nodup := by
@@ -344,7 +327,6 @@ theorem parseKeywords_keys {kws : List Param} {acc : Dict} {ts : List Str} {d : 
         · cases h
         · exact ih h (keysOf_dset_nodup _ _ _ hk)
       · cases h
-    · cases h
     · cases h
 
 
@@ -446,27 +428,21 @@ theorem parseParts_err {s : Str} {e : PyExc} (h : parseParts s = .err e) : e = .
   split at h <;> cases h
   rfl
 
-/-- a part with at least two `'='` (`split('=', maxsplit=2)` gives three pieces) -/
-def TwoEquals (parts : List Str) : Prop := ∃ t ∈ parts.drop 1, (splitEq2 t).length = 3
-
 theorem parseParams_err {I : Iface} {parts : List Str} {defaults : List (Str × PyVal)} {e : PyExc}
-    (h : parseParams I parts defaults = .err e) :
-    e = .descriptor ∨ (e = .valueError ∧ TwoEquals parts) := by
+    (h : parseParams I parts defaults = .err e) : e = .descriptor := by
   unfold parseParams at h
   simp only at h
   split at h
   · rename_i e' he
     cases h
-    exact Or.inl (parsePositional_err he)
+    exact parsePositional_err he
   · split at h
     · rename_i e' he
       cases h
-      rcases parseKeywords_err he with h1 | ⟨h1, t, ht, hl⟩
-      · exact Or.inl h1
-      · exact Or.inr ⟨h1, t, (List.mem_filter.1 ht).1, hl⟩
+      exact parseKeywords_err he
     · split at h
       · cases h
-      · cases h; exact Or.inl rfl
+      · cases h; rfl
 
 /-! ## typing of the parameter dictionary -/
 
@@ -483,6 +459,34 @@ def paramsOf (I : Iface) : List Param := I.positionals ++ I.keywords
 /-- the caller's defaults carry values of the declared type -/
 def DefaultsTyped (I : Iface) (defaults : List (Str × PyVal)) : Prop :=
   ∀ k v, dget (dictOf defaults) k = some v → ∀ q ∈ paramsOf I, q.name = k → valTy v q.ty = true
+
+theorem mem_of_dget {d : Dict} {k : Str} {v : PyVal} (h : dget d k = some v) : (k, v) ∈ d := by
+  induction d with
+  | nil => cases h
+  | cons kv r ih =>
+    obtain ⟨k', v'⟩ := kv
+    simp only [dget] at h
+    by_cases e : k' = k
+    · subst e
+      simp only [if_true, Option.some.injEq] at h
+      subst h
+      exact List.mem_cons_self
+    · simp only [e, if_false] at h
+      exact List.mem_cons_of_mem _ (ih h)
+
+/-- a decidable sufficient check for `DefaultsTyped` -/
+def defaultsTypedB (I : Iface) (defaults : List (Str × PyVal)) : Bool :=
+  (dictOf defaults).all (fun kv => (paramsOf I).all (fun q => q.name != kv.1 || valTy kv.2 q.ty))
+
+theorem defaultsTyped_of_check {I : Iface} {defaults : List (Str × PyVal)} (h : defaultsTypedB I defaults = true) :
+    DefaultsTyped I defaults := by
+  intro k v hk q hq hn
+  have h1 := (List.all_eq_true.1 h) (k, v) (mem_of_dget hk)
+  have h2 := (List.all_eq_true.1 h1) q hq
+  simp only [Bool.or_eq_true, bne_iff_ne, ne_eq] at h2
+  rcases h2 with h2 | h2
+  · exact absurd hn h2
+  · exact h2
 
 theorem convPos_typed {ty : Ty} {t : Str} {v : PyVal} (h : convPos ty t = .ok v) : valTy v ty = true := by
   cases ty <;> simp only [convPos] at h
@@ -728,23 +732,12 @@ theorem bindable_of_aligned {I : Iface} {c : Ctor} (hI : NodupNames I) (ha : Ali
 
 /-! ## value validation -/
 
-def hasNul (h : Str) : Bool := h.any (fun c => c.toNat == 0)
-
-theorem validateHost_err {h : Str} {e : PyExc} (he : validateHost h = .err e) :
-    (e = .indexError ∧ h = []) ∨ (e = .valueError ∧ hasNul h = true) ∨ e = .descriptor := by
+theorem validateHost_err {h : Str} {e : PyExc} (he : validateHost h = .err e) : e = .descriptor := by
   unfold validateHost at he
   split at he
-  · rename_i h0
-    cases he
-    exact Or.inl ⟨rfl, by simpa using h0⟩
-  · split at he
-    · cases he
-    · split at he
-      · rename_i hn
-        cases he
-        exact Or.inr (Or.inl ⟨rfl, hn⟩)
-      · split at he <;> cases he
-        exact Or.inr (Or.inr rfl)
+  · cases he
+  · split at he <;> cases he
+    rfl
 
 /-- which argument of which `__init__` body is validated as what -/
 def expected : Kind → List (Str × Ty)
@@ -754,14 +747,6 @@ def expected : Kind → List (Str × Ty)
   | .usbtmc => [(sVendorid, .int), (sProductid, .int)]
   | .gpib => []
   | .vxi11 => [(sHost, .str)]
-
-/-- the host string that reaches `_validate_host` -/
-def hostSeen (E : Env) (kind : Kind) (a : List (Str × PyVal)) : Option Str :=
-  match kind, arg a sHost with
-  | .tcp, .str h => some (if h = sLocalhost then E.localhostAddr else h)
-  | .udp, .str h => some (if h = sLocalhost then E.localhostAddr else h)
-  | .vxi11, .str h => some h
-  | _, _ => none
 
 theorem andThen_err {r k : Res Unit} {e : PyExc} (h : r.andThen k = .err e) : r = .err e ∨ k = .err e := by
   cases r with
@@ -820,12 +805,10 @@ theorem vPort_err {E : Env} {u : Bool} {v : PyVal} {e : PyExc} (ht : valTy v .in
   · cases h; rfl
   · split at h <;> cases h; rfl
 
-/-- with well-typed arguments an `__init__` body raises the descriptor error, or `ValueError` for a host with
-NUL, or `IndexError` for an empty host — nothing else -/
+/-- with well-typed arguments an `__init__` body raises the descriptor error and nothing else -/
 theorem construct_err {E : Env} {kind : Kind} {a : List (Str × PyVal)} {e : PyExc}
     (ht : ∀ nt ∈ expected kind, valTy (arg a nt.1) nt.2 = true) (h : construct E kind a = .err e) :
-    e = .descriptor ∨ (e = .valueError ∧ ∃ hs, hostSeen E kind a = some hs ∧ hasNul hs = true) ∨
-      (e = .indexError ∧ hostSeen E kind a = some []) := by
+    e = .descriptor := by
   cases kind with
   | serial =>
     simp only [construct] at h
@@ -833,7 +816,6 @@ theorem construct_err {E : Env} {kind : Kind} {a : List (Str × PyVal)} {e : PyE
     · cases h
     · rename_i e' he
       cases h
-      left
       have t := fun n T hm => ht (n, T) hm
       simp only [expected, List.mem_cons, List.mem_nil_iff, or_false] at t
       rcases andThen_err he with h1 | he
@@ -852,35 +834,27 @@ theorem construct_err {E : Env} {kind : Kind} {a : List (Str × PyVal)} {e : PyE
     have t2 := ht (sPort, .int) (by simp [expected])
     simp only [construct] at h
     cases hh : arg a sHost <;> rw [hh] at t1 <;> simp [valTy] at t1
-    rename_i h0
     simp only [hh] at h
     split at h
     · cases h
     · rename_i e' he
       cases h
       rcases andThen_err he with h1 | h1
-      · rcases validateHost_err h1 with ⟨r1, r2⟩ | ⟨r1, r2⟩ | r1
-        · exact Or.inr (Or.inr ⟨r1, by simp [hostSeen, hh, r2]⟩)
-        · exact Or.inr (Or.inl ⟨r1, _, by simp [hostSeen, hh], r2⟩)
-        · exact Or.inl r1
-      · exact Or.inl (vPort_err t2 h1)
+      · exact validateHost_err h1
+      · exact vPort_err t2 h1
   | udp =>
     have t1 := ht (sHost, .str) (by simp [expected])
     have t2 := ht (sPort, .int) (by simp [expected])
     simp only [construct] at h
     cases hh : arg a sHost <;> rw [hh] at t1 <;> simp [valTy] at t1
-    rename_i h0
     simp only [hh] at h
     split at h
     · cases h
     · rename_i e' he
       cases h
       rcases andThen_err he with h1 | h1
-      · rcases validateHost_err h1 with ⟨r1, r2⟩ | ⟨r1, r2⟩ | r1
-        · exact Or.inr (Or.inr ⟨r1, by simp [hostSeen, hh, r2]⟩)
-        · exact Or.inr (Or.inl ⟨r1, _, by simp [hostSeen, hh], r2⟩)
-        · exact Or.inl r1
-      · exact Or.inl (vPort_err t2 h1)
+      · exact validateHost_err h1
+      · exact vPort_err t2 h1
   | usbtmc =>
     have t1 := ht (sVendorid, .int) (by simp [expected])
     have t2 := ht (sProductid, .int) (by simp [expected])
@@ -889,7 +863,6 @@ theorem construct_err {E : Env} {kind : Kind} {a : List (Str × PyVal)} {e : PyE
     · cases h
     · rename_i e' he
       cases h
-      left
       rcases andThen_err he with h1 | h1
       · exact vId_err t1 h1
       · exact vId_err t2 h1
@@ -898,17 +871,12 @@ theorem construct_err {E : Env} {kind : Kind} {a : List (Str × PyVal)} {e : PyE
     have t1 := ht (sHost, .str) (by simp [expected])
     simp only [construct] at h
     cases hh : arg a sHost <;> rw [hh] at t1 <;> simp [valTy] at t1
-    rename_i h0
     simp only [hh] at h
     split at h
     · cases h
     · rename_i e' he
       cases h
-      rcases validateHost_err he with ⟨r1, r2⟩ | ⟨r1, r2⟩ | r1
-      · exact Or.inr (Or.inr ⟨r1, by simp [hostSeen, hh, r2]⟩)
-      · exact Or.inr (Or.inl ⟨r1, _, by simp [hostSeen, hh], r2⟩)
-      · exact Or.inl r1
-
+      exact validateHost_err he
 
 /-- the tables fit the hand-written `__init__` bodies: the constructor has every validated argument, the parser
 declares it with the type the validator expects, and a constructor default has that type too (decidable) -/
@@ -975,29 +943,33 @@ theorem envOk_iface {E : Env} (hE : EnvOk E = true) {I : Iface} (hI : I ∈ E.if
   · simp only [Bool.false_eq_true, if_false] at hc; rw [hc] at h2; exact h2
   · simp only [if_true] at hc; rw [hc] at h3; exact h3
 
+/-- every table of the environment is aligned with the constructors `create_transport` builds from it (decidable) -/
+def AllAligned (E : Env) : Bool :=
+  E.ifaces.all (fun I =>
+    (match I.ctorLinux with | some c => Aligned I c | none => true) &&
+    (match I.ctorWin with | some c => Aligned I c | none => true))
+
+theorem allAligned_iface {E : Env} (hA : AllAligned E = true) {I : Iface} (hI : I ∈ E.ifaces) {win : Bool} {c : Ctor}
+    (hc : I.ctor win = some c) : Aligned I c = true := by
+  unfold AllAligned at hA
+  have := (List.all_eq_true.1 hA) I hI
+  simp only [Bool.and_eq_true] at this
+  obtain ⟨h2, h3⟩ := this
+  unfold Iface.ctor at hc
+  cases win
+  · simp only [Bool.false_eq_true, if_false] at hc; rw [hc] at h2; exact h2
+  · simp only [if_true] at hc; rw [hc] at h3; exact h3
+
 /-- descriptor `s` with defaults `d` gets as far as calling constructor `c` of interface `I` with the
 keyword arguments `p` -/
 def Reaches (E : Env) (win : Bool) (s : Str) (d : List (Str × PyVal)) (I : Iface) (c : Ctor) (p : Dict) : Prop :=
   ∃ parts, parseParts s = .ok parts ∧ findIface E (parts.headD []) = some I ∧
     parseParams I parts d = .ok p ∧ I.ctor win = some c
 
-/-- excluded input class 1: some part after the interface has two or more `'='` -/
-def HasTwoEquals (s : Str) : Prop := ∃ parts, parseParts s = .ok parts ∧ TwoEquals parts
-
-/-- excluded input class 2: the parsed parameter set does not fit the constructor signature -/
+/-- the parsed parameter set does not fit the constructor signature (the only way left for a non-descriptor
+exception, `TypeError`, to escape; impossible for tables aligned with their constructors) -/
 def CtorMismatch (E : Env) (win : Bool) (s : Str) (d : List (Str × PyVal)) : Prop :=
   ∃ I c p, Reaches E win s d I c p ∧ ¬ Bindable c p
-
-/-- the host string `h` reaches `_validate_host` -/
-def HostReaches (E : Env) (win : Bool) (s : Str) (d : List (Str × PyVal)) (h : Str) : Prop :=
-  ∃ I c p a, Reaches E win s d I c p ∧ bindArgs c p = .ok a ∧ hostSeen E c.kind a = some h
-
-/-- excluded input class 3: a host containing NUL -/
-def NulHost (E : Env) (win : Bool) (s : Str) (d : List (Str × PyVal)) : Prop :=
-  ∃ h, HostReaches E win s d h ∧ hasNul h = true
-
-/-- excluded input class 4: an empty host (only the defaults can supply one) -/
-def EmptyHost (E : Env) (win : Bool) (s : Str) (d : List (Str × PyVal)) : Prop := HostReaches E win s d []
 
 theorem pps_eq {E : Env} {s : Str} {parts : List Str} {I : Iface} (d : List (Str × PyVal))
     (hp : parseParts s = .ok parts) (hf : findIface E (parts.headD []) = some I) :
@@ -1053,25 +1025,6 @@ theorem reaches_iff {E : Env} {win : Bool} {s : Str} {d : List (Str × PyVal)} {
             exact ⟨parts, hp, hf, hpp, hc⟩
 
 instance (c : Ctor) (p : Dict) : Decidable (Bindable c p) := by unfold Bindable; infer_instance
-instance (parts : List Str) : Decidable (TwoEquals parts) := by unfold TwoEquals; infer_instance
-
-def twoEqualsRes : Res (List Str) → Prop
-  | .ok parts => TwoEquals parts
-  | .err _ => False
-
-instance : (r : Res (List Str)) → Decidable (twoEqualsRes r)
-  | .ok parts => inferInstanceAs (Decidable (TwoEquals parts))
-  | .err _ => inferInstanceAs (Decidable False)
-
-theorem hasTwoEquals_iff {s : Str} : HasTwoEquals s ↔ twoEqualsRes (parseParts s) := by
-  unfold HasTwoEquals
-  cases parseParts s with
-  | ok parts => simp [twoEqualsRes]
-  | err e => simp [twoEqualsRes]
-
-instance (s : Str) : Decidable (HasTwoEquals s) :=
-  decidable_of_iff _ hasTwoEquals_iff.symm
-
 def mismatchOpt : Option (Iface × Ctor × Dict) → Prop
   | some (_, c, p) => ¬ Bindable c p
   | none => False
@@ -1096,59 +1049,6 @@ theorem ctorMismatch_iff {E : Env} {win : Bool} {s : Str} {d : List (Str × PyVa
 
 instance (E : Env) (win : Bool) (s : Str) (d : List (Str × PyVal)) : Decidable (CtorMismatch E win s d) :=
   decidable_of_iff _ ctorMismatch_iff.symm
-
-/-- the host string that reaches `_validate_host`, if the descriptor gets that far -/
-def hostOf (E : Env) (win : Bool) (s : Str) (d : List (Str × PyVal)) : Option Str :=
-  match stage E win s d with
-  | none => none
-  | some (_, c, p) =>
-    match bindArgs c p with
-    | .err _ => none
-    | .ok a => hostSeen E c.kind a
-
-theorem hostReaches_iff {E : Env} {win : Bool} {s : Str} {d : List (Str × PyVal)} {h : Str} :
-    HostReaches E win s d h ↔ hostOf E win s d = some h := by
-  unfold HostReaches hostOf
-  constructor
-  · rintro ⟨I, c, p, a, hr, hb, hh⟩
-    rw [reaches_iff.1 hr]; simp only
-    rw [hb]; exact hh
-  · intro hh
-    cases hs : stage E win s d with
-    | none => rw [hs] at hh; cases hh
-    | some x =>
-      obtain ⟨I, c, p⟩ := x
-      rw [hs] at hh
-      simp only at hh
-      cases hb : bindArgs c p with
-      | err e => rw [hb] at hh; cases hh
-      | ok a => rw [hb] at hh; exact ⟨I, c, p, a, reaches_iff.2 hs, hb, hh⟩
-
-def nulOpt : Option Str → Prop
-  | some h => hasNul h = true
-  | none => False
-
-instance : (o : Option Str) → Decidable (nulOpt o)
-  | some h => inferInstanceAs (Decidable (hasNul h = true))
-  | none => inferInstanceAs (Decidable False)
-
-theorem nulHost_iff {E : Env} {win : Bool} {s : Str} {d : List (Str × PyVal)} :
-    NulHost E win s d ↔ nulOpt (hostOf E win s d) := by
-  unfold NulHost
-  constructor
-  · rintro ⟨h, hr, hn⟩
-    rw [hostReaches_iff.1 hr]; exact hn
-  · intro hh
-    cases ho : hostOf E win s d with
-    | none => rw [ho] at hh; exact hh.elim
-    | some h => rw [ho] at hh; exact ⟨h, hostReaches_iff.2 ho, hh⟩
-
-instance (E : Env) (win : Bool) (s : Str) (d : List (Str × PyVal)) : Decidable (NulHost E win s d) :=
-  decidable_of_iff _ nulHost_iff.symm
-
-instance (E : Env) (win : Bool) (s : Str) (d : List (Str × PyVal)) : Decidable (EmptyHost E win s d) :=
-  decidable_of_iff (hostOf E win s d = some []) (by unfold EmptyHost; exact hostReaches_iff.symm)
-
 
 /-! ## from the parameter dictionary to the attributes of the transport -/
 
